@@ -5,7 +5,7 @@ Pipeline:
   correspond  core correspondence (Coq `unm`/`mar` on runtime tables vs typelib end to end) on union-free /
               Optional-only annotations with VALID values chosen adversarially for the text decoders, the C03 input
               pool derived from them, and the second application u(u(x)) of every successful result;
-              + tie of the Coq definitions `valid` / `stable` / `optional_only` / the guards to an independent
+              + tie of the Coq definitions `valid` / `optional_only` / the guards to an independent
                 Python reading (exact class at every position) on the same values;
               + the leaf laws of PassLaws / IdemLaws sampled on every (leaf, valid value) pair and on every leaf
                 call made during the run.
@@ -32,7 +32,7 @@ from lib import coq_bool, coq_list, coq_nat
 from universe import LEAVES, cname, src_ty
 
 COQ_TARGETS = ["theories/Props/C13.vo", "theories/Model/CoreTables.vo"]
-THEOREMS = ["C13_passthrough", "C13_passthrough_stable", "C13_valid_stable", "C13_results_stable", "C13_idempotent",
+THEOREMS = ["C13_passthrough", "C13_valid_fuel_mono", "C13_results_valid", "C13_idempotent",
             "C13_defaults_guard_sound", "C13_wf_guard_sound", "C13_refuted_idem_nonconforming_default",
             "C13_refuted_idem_general_union"]
 FUEL = coremodel.FUEL
@@ -172,7 +172,7 @@ def generate(run, n_groups, seed_offset, values_per_root=3, depth=2, model=True)
 
 
 # ----------------------------------------------------------------------------------
-# tie of the Coq definitions valid / stable / optional_only / guards
+# tie of the Coq definitions valid / optional_only / guards
 # ----------------------------------------------------------------------------------
 
 def emit_valid_tie(g, recs, name):
@@ -184,19 +184,18 @@ def emit_valid_tie(g, recs, name):
         if ok:
             lvt[(reg.leaves[key], reg.enc(v))] = True
 
-    strict = G.Validity(g.env, g.mod, strict_tuple=True, total=False, on_leaf=on_leaf)
-    loose = G.Validity(g.env, g.mod, strict_tuple=False, total=False, on_leaf=on_leaf)
+    strict = G.Validity(g.env, g.mod, on_leaf=on_leaf)
     vcases, descs = [], []
     for rec in recs:
         for tag, x in [("valid", rec.value)] + [(t, x) for t, x in rec.inputs if t != "valid"][:4] + \
                 [("result", y) for y in rec.results[:4]]:
             try:
-                ev, es = strict(rec.tdesc, x), loose(rec.tdesc, x)
+                ev = strict(rec.tdesc, x)
                 enc = reg.enc(x)
             except Exception:       # noqa: BLE001   (objects the encoder has no form for)
                 continue
-            vcases.append(f"({reg.emit_ty(rec.tdesc)}, {enc}, {coq_bool(ev)}, {coq_bool(es)})")
-            descs.append({"type": repr(rec.pytype), "value": repr(x)[:300], "tag": tag, "py_valid": ev, "py_stable": es})
+            vcases.append(f"({reg.emit_ty(rec.tdesc)}, {enc}, {coq_bool(ev)})")
+            descs.append({"type": repr(rec.pytype), "value": repr(x)[:300], "tag": tag, "py_valid": ev})
     # defaults: make the leaf tables know the defaults (fixlv asks leaf_u about them)
     for n, d in g.env["defs"].items():
         if d[0] != "class":
@@ -222,9 +221,9 @@ def emit_valid_tie(g, recs, name):
     text = (
         f"Definition lvt : list (nat * pv) := {coq_list([f'({coq_nat(s)}, {e})' for (s, e) in lvt], '(nat * pv)')}.\n"
         "Definition lv (s : nat) (v : pv) : bool := existsb (fun p => andb (Nat.eqb s (fst p)) (pv_eqb v (snd p))) lvt.\n"
-        f"Definition vcases : list (ty * pv * bool * bool) :=\n  {coq_list(vcases, '(ty * pv * bool * bool)')}.\n"
-        f"Definition bad_valid := mismatches (fun c : ty * pv * bool * bool => match c with (t, v, ev, es) =>\n"
-        f"  andb (Bool.eqb (valid lv rt E {FUEL} t v) ev) (Bool.eqb (stable lv rt E {FUEL} t v) es) end) vcases.\n"
+        f"Definition vcases : list (ty * pv * bool) :=\n  {coq_list(vcases, '(ty * pv * bool)')}.\n"
+        f"Definition bad_valid := mismatches (fun c : ty * pv * bool => match c with (t, v, ev) =>\n"
+        f"  Bool.eqb (valid lv rt E {FUEL} t v) ev end) vcases.\n"
         f"Definition names : list nat := {coq_list([coq_nat(n) for n in names], 'nat')}.\n"
         f"Definition oo_cases : list (ty * bool) := {coq_list([f'({reg.emit_ty(t)}, {coq_bool(e)})' for t, e in oo_cases], '(ty * bool)')}.\n"
         f"Definition guards := (nodup_namesb E names, defaults_okb rt E {FUEL} names,\n"
@@ -281,10 +280,10 @@ def evaluate(run, groups, records, tag, per_file=5):
         "observed_raise": raised, "observed_ok": ncases - raised,
         "roots": _root_dist(groups)})
     nv = sum(len(meta[id(g)][0]) for g in groups)
-    run.record_corr("definition-tie:valid,stable", nv, badv, nv, {
+    run.record_corr("definition-tie:valid", nv, badv, nv, {
         "py_valid_true": sum(1 for g in groups for d in meta[id(g)][0] if d["py_valid"]),
-        "py_stable_only": sum(1 for g in groups for d in meta[id(g)][0] if d["py_stable"] and not d["py_valid"]),
-        "py_valid_false": sum(1 for g in groups for d in meta[id(g)][0] if not d["py_stable"])})
+        "py_valid_false": sum(1 for g in groups for d in meta[id(g)][0] if not d["py_valid"]),
+        "of_which_results_of_unmarshal": sum(1 for g in groups for d in meta[id(g)][0] if d["tag"] == "result")})
     run.record_corr("definition-tie:guards", 3 * len(groups), badg, 3 * len(groups), {
         "envs_with_nonconforming_defaults": sum(1 for g in groups if g.bad_defaults)})
     if groups and groups[0].cases:
@@ -406,7 +405,7 @@ def prove(run: lib.Run):
 
 
 def correspond(run: lib.Run):
-    n_groups = run.budget(40, 300)
+    n_groups = run.budget(40, 700)
     groups, records = generate(run, n_groups, seed_offset=13)
     _state["groups"], _state["records"] = groups, records
     evaluate(run, groups, records, "c13")
@@ -429,8 +428,8 @@ def region_of(g, tdesc, y):
     if not G.optional_only(tdesc, g.env):
         return "general-union"
     if g.bad_defaults:
-        plain = G.Validity(g.env, g.mod, strict_tuple=False, total=False)(tdesc, y)
-        modulo = G.Validity(g.env, g.mod, strict_tuple=False, total=False, default_ok=True)(tdesc, y)
+        plain = G.Validity(g.env, g.mod)(tdesc, y)
+        modulo = G.Validity(g.env, g.mod, default_ok=True)(tdesc, y)
         if modulo and not plain:
             return "nonconforming-default"
     return None
@@ -494,7 +493,7 @@ def search(run: lib.Run, broken):
     for rec in _state.get("records", []):
         check_record(rec, stats, fails)
     # oracle-only volume (no Coq): more when something is broken
-    n_extra = run.budget(80, 700) * (3 if broken else 1)
+    n_extra = run.budget(80, 2000) * (3 if broken else 1)
     groups, records = generate(run, n_extra, seed_offset=1313, model=False, values_per_root=4)
     for rec in records:
         check_record(rec, stats, fails)
